@@ -84,7 +84,7 @@ fn any_len(lmax: usize) -> usize {
 }
 
 fn info(len: usize, sized: bool, ends: u8) -> KindInfo {
-    KindInfo { len, sized, nmax: len + 2, ops: 0, ends, nbuf: 0 }
+    KindInfo { len, sized, nmax: len + 2, ops: 0, ends, nbuf: 0, lying: false }
 }
 
 fn go_slice(lmax: usize, prefix: usize, script: &[u16], ends: u8, wit: fn(&Model)) {
@@ -141,9 +141,9 @@ fn go_iter(lmax: usize, prefix: usize, script: &[u16], ends: u8, wit: fn(&Model)
 fn go_iter_n(lmax: usize, prefix: usize, script: &[u16], ends: u8, wit: fn(&Model), nbuf: usize) {
     let len = any_len(lmax);
     let hint: u8 = kani::any();
-    kani::assume(hint < 3);
+    kani::assume(hint < 4);
     let it = Probe::new(len, hint).into_con_iter();
-    let m = run(it, KindInfo { nbuf, ..info(len, hint == 0, ends) }, prefix, script, |v: usize| v);
+    let m = run(it, KindInfo { nbuf, lying: hint == 3, ..info(len, hint == 0, ends) }, prefix, script, |v: usize| v);
     wit(&m);
 }
 
@@ -302,7 +302,7 @@ fn iter_chunk() {
 }
 
 // @verif family=SEQ quick=C03,C04,C05,C10,C11 thorough=C01,C02,C17,C09 timeout=900
-// @bounds kind=ConIterOfIter<usize,Probe> len<=3, all size hints; prefix<=3 next(); buffered_iter(2) 1-2 pulls partly consumed (stale buffer slots); one of single/len query; end in {drop, into_seq_iter all/partly}
+// @bounds kind=ConIterOfIter<usize,Probe> len<=3, exact/inexact/unbounded/over-promising size hints; prefix<=3 next(); buffered_iter(2) 1-2 pulls partly consumed (stale buffer slots); one of single/len query; end in {drop, into_seq_iter all/partly}
 #[kani::proof]
 #[kani::unwind(7)]
 fn iter_buf() {
@@ -310,7 +310,7 @@ fn iter_buf() {
 }
 
 // @verif family=SEQ thorough=C03,C04,C05,C10,C11 timeout=1200 optcov=mid-way
-// @bounds kind=ConIterOfIter<usize,Probe> len<=3, all size hints; prefix<=3 next(); buffered_iter(3) 1-2 pulls partly consumed; single/len query; end in {drop, into_seq_iter all/partly}
+// @bounds kind=ConIterOfIter<usize,Probe> len<=3, exact/inexact/unbounded/over-promising size hints; prefix<=3 next(); buffered_iter(3) 1-2 pulls partly consumed; single/len query; end in {drop, into_seq_iter all/partly}
 #[kani::proof]
 #[kani::unwind(7)]
 fn iter_buf3() {
@@ -318,7 +318,7 @@ fn iter_buf3() {
 }
 
 // @verif family=SEQ quick=C06 thorough=C10,C11,C09 timeout=900
-// @bounds kind=ConIterOfIter<usize,Probe> len<=2, all size hints; prefix<=2 next(); skip_to_end; 4 steps of single pulls / len queries / one chunk pull (enough pulls for the reserved counter to come back to the yielded count); end in {drop, into_seq_iter all/partly}
+// @bounds kind=ConIterOfIter<usize,Probe> len<=2, exact/inexact/unbounded/over-promising size hints; prefix<=2 next(); skip_to_end; 4 steps of single pulls / len queries / one chunk pull (enough pulls for the reserved counter to come back to the yielded count); end in {drop, into_seq_iter all/partly}
 #[kani::proof]
 #[kani::unwind(6)]
 fn iter_skip() {
@@ -326,7 +326,7 @@ fn iter_skip() {
 }
 
 // @verif family=SEQ quick=C06,C11 thorough=C10 timeout=900
-// @bounds kind=ConIterOfIter<usize,Probe> len<=3, all size hints; prefix<=3 next(); skip_to_end; any pull (single, chunk n<=len+2, buffered x2); single/len query; end in {drop, into_seq_iter all/partly}
+// @bounds kind=ConIterOfIter<usize,Probe> len<=3, exact/inexact/unbounded/over-promising size hints; prefix<=3 next(); skip_to_end; any pull (single, chunk n<=len+2, buffered x2); single/len query; end in {drop, into_seq_iter all/partly}
 #[kani::proof]
 #[kani::unwind(7)]
 fn iter_skip_any() {
@@ -334,7 +334,7 @@ fn iter_skip_any() {
 }
 
 // @verif family=SEQ quick=C12 thorough=C01,C02 timeout=900
-// @bounds kind=ConIterOfIter<usize,Probe> len<=3, all size hints; prefix<=3 next(); one of for_each/enumerate_for_each/fold with chunk size 1 (the buffered path of the loops on the wrapper ran out of memory in CBMC even for len<=2 and is outside this bound; buffered pulls on the wrapper are covered by iter_buf, the loops' buffered path by the slice/vec/range harnesses and ENV)
+// @bounds kind=ConIterOfIter<usize,Probe> len<=3, exact/inexact/unbounded/over-promising size hints; prefix<=3 next(); one of for_each/enumerate_for_each/fold with chunk size 1 (the buffered path of the loops on the wrapper ran out of memory in CBMC even for len<=2 and is outside this bound; buffered pulls on the wrapper are covered by iter_buf, the loops' buffered path by the slice/vec/range harnesses and ENV)
 #[kani::proof]
 #[kani::unwind(7)]
 fn iter_loops() {
@@ -428,7 +428,7 @@ fn range_long() {
 }
 
 // @verif family=SEQ thorough=C01,C03,C04,C05,C06,C09,C10,C11 timeout=3600 mem=24
-// @bounds kind=ConIterOfIter<usize,Probe> len<=3, all size hints, buffered chunk size 2; prefix<=3 next(); any pull; any pull or len query or skip_to_end; single/chunk/len; end in {drop, into_seq_iter all/partly}
+// @bounds kind=ConIterOfIter<usize,Probe> len<=3, exact/inexact/unbounded/over-promising size hints, buffered chunk size 2; prefix<=3 next(); any pull; any pull or len query or skip_to_end; single/chunk/len; end in {drop, into_seq_iter all/partly}
 #[kani::proof]
 #[kani::unwind(7)]
 fn iter_long() {
@@ -458,7 +458,7 @@ fn spin_guard() {
 }
 
 // @verif family=SEQ hook=1 quick=C09 thorough=C05 timeout=900 owner=C09
-// @bounds kind=ConIterOfIter<usize,Probe> len<=3, all size hints; prefix<=3 next(); next_chunk(n<=len+2) consuming j; single/len query; end in {drop, into_seq_iter all/partly}; spin detection: >12 consecutive loads
+// @bounds kind=ConIterOfIter<usize,Probe> len<=3, exact/inexact/unbounded/over-promising size hints; prefix<=3 next(); next_chunk(n<=len+2) consuming j; single/len query; end in {drop, into_seq_iter all/partly}; spin detection: >12 consecutive loads
 #[cfg(orx_concurrent_iter_verif)]
 #[kani::proof]
 #[kani::unwind(9)]
@@ -468,7 +468,7 @@ fn iterh_chunk() {
 }
 
 // @verif family=SEQ hook=1 quick=C09 thorough=C05 timeout=900 owner=C09
-// @bounds kind=ConIterOfIter<usize,Probe> len<=3, all size hints; prefix<=3 next(); buffered_iter(2) 1-2 pulls partly consumed; single/len query; end in {drop, into_seq_iter all/partly}; spin detection
+// @bounds kind=ConIterOfIter<usize,Probe> len<=3, exact/inexact/unbounded/over-promising size hints; prefix<=3 next(); buffered_iter(2) 1-2 pulls partly consumed; single/len query; end in {drop, into_seq_iter all/partly}; spin detection
 #[cfg(orx_concurrent_iter_verif)]
 #[kani::proof]
 #[kani::unwind(9)]
@@ -478,7 +478,7 @@ fn iterh_buf() {
 }
 
 // @verif family=SEQ hook=1 quick=C09 thorough=C06 timeout=900 owner=C09
-// @bounds kind=ConIterOfIter<usize,Probe> len<=2, all size hints; prefix<=2 next(); skip_to_end; 4 more steps of single pulls / len queries / one chunk pull; end in {drop, into_seq_iter all/partly}; spin detection
+// @bounds kind=ConIterOfIter<usize,Probe> len<=2, exact/inexact/unbounded/over-promising size hints; prefix<=2 next(); skip_to_end; 4 more steps of single pulls / len queries / one chunk pull; end in {drop, into_seq_iter all/partly}; spin detection
 #[cfg(orx_concurrent_iter_verif)]
 #[kani::proof]
 #[kani::unwind(9)]
